@@ -82,6 +82,22 @@ def rule_wrap(ctx: Ctx, clause="C13.1") -> RuleResult:
         for x in raises:
             if not clears or not cfg.dominated(x, clears):
                 rr.add(finding("WRAP", r, x.stmt, "the captured exception is re-raised without self._exc being cleared first: the next run() would raise it again", construct="re-raise before clearing _exc"))
+    # twisted: the reactor catches and logs *everything* a callback raises (SystemExit and KeyboardInterrupt included),
+    # so the capturing wrapper has to catch BaseException; a narrower handler lets those end up in the reactor's log
+    # while run() goes on.  (tornado sits on asyncio, which re-raises SystemExit / KeyboardInterrupt by itself.)
+    he = p.func(LOOPS["twisted"] + ".handle_exit")
+    wrappers = [f for f in p.functions.values() if f.parent is he]
+    caught = set()
+    for w_ in wrappers:
+        for n in w_.own_nodes():
+            if isinstance(n, ast.Try) and any(isinstance(x, ast.Call) and isinstance(x.func, ast.Name) and x.func.id == he.params[1] for b in n.body for x in ast.walk(b)):
+                for h in n.handlers:
+                    caught |= {"<bare>"} if h.type is None else {ast.unparse(x).split(".")[-1] for x in (h.type.elts if isinstance(h.type, ast.Tuple) else [h.type])}
+    rr.inst("twisted: wrapper catches BaseException", True, {"caught": sorted(caught)})
+    if not caught:
+        raise AnalysisError("TwistedEventLoop.handle_exit: the try around the wrapped callback was not found")
+    if not (caught & {"BaseException", "<bare>"}):
+        rr.add(finding("WRAP", he, he.node, f"the capturing wrapper of TwistedEventLoop.handle_exit catches only {sorted(caught)}: the Twisted reactor logs and swallows whatever else a callback raises (SystemExit from sys.exit(), KeyboardInterrupt), so run() carries on instead of ending with that exception", construct="twisted wrapper narrower than BaseException"))
     # ExitMainLoop absorbed by run() of select/zmq (direct callbacks)
     for key in ("select", "zmq"):
         r = p.func(LOOPS[key] + ".run")
@@ -387,8 +403,50 @@ def rule_presence(ctx: Ctx) -> RuleResult:
     return rr
 
 
+def rule_handle_unique(ctx: Ctx) -> RuleResult:
+    """Handles returned by alarm() / watch_file() / enter_idle() name one registration for as long as the loop lives.
+    Where a loop keeps its registrations in a dict keyed by a handle it makes up itself and entries can be removed
+    again, the handle must come from a counter that only grows - a value derived from the current size of the dict
+    (`len(self._reg) + 1`) is handed out twice once an older entry was removed, and removing one registration then
+    removes another."""
+    p = ctx.p
+    rr = RuleResult("TAB", "C13.8", "self-made registry handles come from a counter, never from the registry's current size", floor=3)
+    for key, cq in LOOPS.items():
+        C = p.cls(cq)
+        for fi in C.methods.values():
+            du = DefUse(fi)
+            for node in du.cfg.nodes:
+                a = node.ast
+                if not (isinstance(a, ast.Assign) and len(a.targets) == 1 and isinstance(a.targets[0], ast.Subscript) and isinstance(a.targets[0].value, ast.Attribute) and isinstance(a.targets[0].value.value, ast.Name) and a.targets[0].value.value.id == fi.self_name):
+                    continue
+                reg = a.targets[0].value.attr
+                k = a.targets[0].slice
+                if not isinstance(k, ast.Name) or k.id in fi.params:
+                    continue  # keyed by something the caller supplied (fd, scope)
+                txt = du.text(k, node)
+                rr.inst(f"{short(fi)}:{reg}", True, {"loop": key, "registry": reg, "handle_is": txt[:60]})
+                if f"len(self.{reg})" in txt or f"len({fi.self_name}.{reg})" in txt:
+                    rr.add(finding("TAB", fi, a, f"the handle stored in self.{reg} is `{txt[:60]}`, derived from the registry's current size: after an older registration was removed the next one gets a handle that is still in use, and removing either of them hits the other", construct=f"handle of {reg} derived from len({reg})"))
+    return rr
+
+
+def rule_twisted_idle_flag(ctx: Ctx) -> RuleResult:
+    """TwistedEventLoop emulates idle callbacks with a zero-delay timer guarded by _twisted_idle_enabled; the timer
+    callback must lower the flag on every normal path - also when no idle callback is registered at that moment -
+    otherwise _enable_twisted_idle() returns early for ever and idle callbacks registered later never run."""
+    p = ctx.p
+    rr = RuleResult("PASS", "C13.9", "TwistedEventLoop._twisted_idle_callback lowers _twisted_idle_enabled on every normal path", floor=1)
+    fi = p.func(LOOPS["twisted"] + "._twisted_idle_callback")
+    cfg = cfg_of(fi)
+    stores = [n for n in cfg.nodes if isinstance(n.ast, ast.Assign) and any(isinstance(t, ast.Attribute) and t.attr == "_twisted_idle_enabled" for t in n.ast.targets) and isinstance(n.ast.value, ast.Constant) and n.ast.value.value is False]
+    rr.inst("flag lowered", True, {"stores": len(stores)})
+    if not stores or cfg.exit in cfg.reachable([cfg.entry], avoid=stores, labels=("n", "T", "F")):
+        rr.add(finding("PASS", fi, stores[0].stmt if stores else fi.node, "a normal path through _twisted_idle_callback (no idle callback registered when the timer fires) leaves _twisted_idle_enabled set: _enable_twisted_idle() then never schedules the timer again and idle callbacks registered later are never called", construct="idle flag not lowered on every path"))
+    return rr
+
+
 def run(ctx: Ctx):
-    return [rule_wrap(ctx), rule_snap(ctx), rule_idle_arming(ctx), rule_remove_returns(ctx), rule_select_zmq(ctx), rule_trio_checkpoint(ctx), rule_presence(ctx)]
+    return [rule_wrap(ctx), rule_snap(ctx), rule_idle_arming(ctx), rule_remove_returns(ctx), rule_select_zmq(ctx), rule_trio_checkpoint(ctx), rule_presence(ctx), rule_handle_unique(ctx), rule_twisted_idle_flag(ctx)]
 
 
 from ..mutants import Mut  # noqa: E402
@@ -396,6 +454,9 @@ from ..mutants import Mut  # noqa: E402
 _S = "urwid/event_loop/select_loop.py"
 _A = "urwid/event_loop/asyncio_loop.py"
 MUTANTS = [
+    Mut("tornado-handle-from-dict-size", "urwid/event_loop/tornado_loop.py", "TornadoEventLoop.watch_file", "        self._max_watch_handle += 1\n        handle = self._max_watch_handle\n", "        handle = len(self._watch_handles) + 1\n", "TAB|event_loop.tornado_loop.TornadoEventLoop.watch_file"),
+    Mut("twisted-idle-flag-lowered-in-loop-only", "urwid/event_loop/twisted_loop.py", "TwistedEventLoop._twisted_idle_callback", "            callback()\n        self._twisted_idle_enabled = False", "            self._twisted_idle_enabled = False\n            callback()", "PASS|event_loop.twisted_loop.TwistedEventLoop._twisted_idle_callback"),
+    Mut("twisted-wrapper-catches-exception-only", "urwid/event_loop/twisted_loop.py", "TwistedEventLoop.handle_exit", "            except BaseException as exc:", "            except Exception as exc:", "WRAP|event_loop.twisted_loop.TwistedEventLoop.handle_exit"),
     Mut("tornado-fd-zero-not-removed", "urwid/event_loop/tornado_loop.py", "TornadoEventLoop.remove_watch_file", "if (fd := self._watch_handles.pop(handle, None)) is not None:", "if fd := self._watch_handles.pop(handle, None):", "TRUTHY|event_loop.tornado_loop.TornadoEventLoop.remove_watch_file"),
     Mut("select-idle-live-dict", _S, "SelectEventLoop._entering_idle", "for callback in list(self._idle_callbacks.values()):", "for callback in self._idle_callbacks.values():", "SNAP|"),
     Mut("select-remove-alarm-conditional-heapify", _S, "SelectEventLoop.remove_alarm", "            self._alarms.remove(handle)\n            heapq.heapify(self._alarms)\n", "            self._alarms.remove(handle)\n", "SIB|"),
